@@ -112,6 +112,21 @@ CsProg(pk, form, label, P, U, pay, alg, kk, x) ==
      [op |-> "new", obj |-> "cs4", kind |-> "csig", m |-> Lay(HdrP(1, alg), <<>>)],
      [op |-> "countersign", obj |-> "cs4", parent |-> "par2", form |-> form, signers |-> <<S(alg, kk)>>] @@ x,
      [op |-> "verifycs", obj |-> "cs4", parent |-> "par2", form |-> form, verifiers |-> <<V(alg, kk)>>] @@ x >>
+\* a list of two countersignatures made with different keys and algorithms, nested in the parent, each verified after a wire round trip
+CsListProg(pk, form, label, P, U, pay, alg, kk, x) ==
+  LET alg2 == IF alg = 0 - 8 THEN 0 - 7 ELSE 0 - 8 IN
+  << [op |-> "new", obj |-> "par", kind |-> pk, m |-> Parent(pk, P, U, pay)],
+     [op |-> "new", obj |-> "cs1", kind |-> "csig", m |-> Lay(HdrP(2, alg), <<>>)],
+     [op |-> "countersign", obj |-> "cs1", parent |-> "par", form |-> form, signers |-> <<S(alg, kk)>>] @@ x,
+     [op |-> "new", obj |-> "cs2", kind |-> "csig", m |-> Lay(HdrP(3, alg2), <<>>)],
+     [op |-> "countersign", obj |-> "cs2", parent |-> "par", form |-> form, signers |-> <<S(alg2, "builtin")>>] @@ x,
+     [op |-> "attachcs", obj |-> "par", label |-> label, css |-> <<"cs1", "cs2">>],
+     [op |-> "marshal", obj |-> "par", buf |-> "p1"],
+     [op |-> "unmarshal", obj |-> "par2", kind |-> pk, buf |-> "p1"],
+     [op |-> "extractcs", obj |-> "c0", from |-> "par2", label |-> label, index |-> 0],
+     [op |-> "verifycs", obj |-> "c0", parent |-> "par2", form |-> form, verifiers |-> <<V(alg, kk)>>] @@ x,
+     [op |-> "extractcs", obj |-> "c1", from |-> "par2", label |-> label, index |-> 1],
+     [op |-> "verifycs", obj |-> "c1", parent |-> "par2", form |-> form, verifiers |-> <<V(alg2, "builtin")>>] @@ x >>
 Cs0Prog(pk, form, label, P, U, pay, alg, kk, x) ==
   << [op |-> "new", obj |-> "par", kind |-> pk, m |-> Parent(pk, P, U, pay)],
      [op |-> "countersign0", obj |-> "", parent |-> "par", form |-> form, signers |-> <<S(alg, kk)>>, buf |-> "z"] @@ x,
@@ -131,7 +146,7 @@ PickShape == st.phase = 1 /\ \E h \in HdrIds : \E n \in PayloadNs : \E x \in Ext
 PickVariant == st.phase = 2 /\
    \/ st.flow \in {"msg", "detached", "helper"} /\ \E kd \in {"sign1", "sign1u"} : st' = [st EXCEPT !.phase = 3] @@ [kind |-> kd]
    \/ st.flow \in {"sign", "sigalone"} /\ st' = [st EXCEPT !.phase = 3] @@ [kind |-> st.flow]
-   \/ st.flow \in {"cs", "cs0"} /\ \E pk \in {"sign1", "sign", "sig", "csig"} : \E form \in {"ptr", "val"} :
+   \/ st.flow \in {"cs", "cs0", "cslist"} /\ \E pk \in {"sign1", "sign", "sig", "csig"} : \E form \in {"ptr", "val"} :
         st' = [st EXCEPT !.phase = 3] @@ [kind |-> pk, form |-> form]
 Next == PickFlow \/ PickShape \/ PickVariant
 Spec == Init /\ [][Next]_st
@@ -144,6 +159,7 @@ Prog ==
     [] st.flow = "sign" -> SignProg(IF st.h = 1 THEN <<>> ELSE <<KidN(3)>>, U, pay, IF st.n % 3 = 0 THEN <<st.alg>> ELSE IF st.n % 3 = 1 THEN <<st.alg, 0 - 8>> ELSE <<0 - 7, st.alg, 0 - 8>>, st.x)
     [] st.flow = "sigalone" -> SigAloneProg(P, U, pay, st.alg, st.kk, st.x)
     [] st.flow = "cs" -> CsProg(st.kind, st.form, IF st.kind = "sign1" THEN 11 ELSE 7, IF st.h = 1 THEN <<>> ELSE P, <<>>, pay, st.alg, st.kk, st.x)
+    [] st.flow = "cslist" -> CsListProg(st.kind, st.form, IF st.kind = "sign1" THEN 11 ELSE 7, IF st.h = 1 THEN <<>> ELSE P, <<>>, pay, st.alg, st.kk, st.x)
     [] st.flow = "cs0" -> Cs0Prog(st.kind, st.form, IF st.kind = "sign1" THEN 12 ELSE 9, IF st.h = 1 THEN <<>> ELSE P, <<>>, pay, st.alg, st.kk, st.x)
 Emit == st.phase # 3 \/
   PrintT(<<"CASE", ToJson([flow |-> st.flow, kind |-> st.kind, alg |-> st.alg, kk |-> st.kk, h |-> st.h, n |-> st.n, steps |-> Prog])>>)
